@@ -224,13 +224,14 @@ theorem C09_ws_exactly_one (h : Handler) (req : Req) (hid : req.id ≠ .nil) :
     exact C09_id_echo h true req r (by simpa using hr)
 
 /-- The executor appends to the wire exactly what `wsCall` says, for every frame. -/
-theorem C09_ws_exec_wire (h : Handler) (s s' : ExecState) (f : FrameIn)
+theorem C09_ws_exec_wire (h : Handler) (s s' : ExecState) (f : FrameIn) (hh : s.hasHandler = true)
     (hx : execFrame h s f = .ok s') :
     s'.wire = s.wire ∨
     ∃ id, normalizeID f.id = some id ∧ s'.wire = s.wire ++ (wsCall h ⟨id, f.method.toList, f.call⟩).2.toList := by
   unfold execFrame at hx
   repeat' split at hx
   all_goals first
+    | (simp [hh] at *; done)
     | (simp at hx; subst hx; simp; done)
     | (simp [handleResponse, cancelCtx, handleChanMessage, handleChanClose] at hx
        repeat' split at hx
@@ -240,6 +241,18 @@ theorem C09_ws_exec_wire (h : Handler) (s s' : ExecState) (f : FrameIn)
        subst hx
        right
        exact ⟨key, hkey, by simp [heq]⟩)
+
+/-- An endpoint without handlers (a client built without `WithClientHandler`) answers a request frame with
+    method-not-found and drops a notification: the peer's call returns an error instead of waiting (F35). -/
+theorem C09_ws_no_handler (h : Handler) (s : ExecState) (f : FrameIn) (id : NId)
+    (hd : f.decodable = true) (hid : normalizeID f.id = some id) (hh : s.hasHandler = false)
+    (hcall : f.method ≠ "" ∧ f.method ≠ "xrpc.cancel" ∧ f.method ≠ "xrpc.ch.val" ∧ f.method ≠ "xrpc.ch.close") :
+    execFrame h s f =
+      .ok (if id == .nil then s else { s with wire := s.wire ++ [⟨id, .error codeMethodNotFound⟩] }) := by
+  obtain ⟨h1, h2, h3, h4⟩ := hcall
+  unfold execFrame
+  simp only [hd, hid, h1, h2, h3, h4, hh]
+  cases hn : (id == NId.nil) <;> simp
 
 /-- Non-vacuity: a notification for an unknown method, and one for a known method with a wrong arity,
     are silent on the wire although `handle` produced an error object for each. -/
